@@ -10,6 +10,13 @@ package queue
 // queue and directly on internal/smtpconn against a hand-written next hop): whatever the next hop
 // acknowledged must be the complete signed message, and an attempt maddy treats as failed must not
 // have been acknowledged.  Keys are generated once per run; the Lean driver is called per batch.
+//
+// Round 4: the key store (TestVerifC08Keys): histories of Init()s on one key directory — keys that exist
+// under their documented names, restarts, newkey_algo changed, domains added — for ASCII and IDN domains in
+// every spelling, IDN selectors and custom key_path templates: a later instance never generates a second
+// key for a (domain, selector) that has one and what it signs verifies against the record published FIRST.
+// The added-field tampering now takes the name from the CONFIGURED over-sign list.  The shared keys of
+// the run are found by content, not by file name (a change of the naming used to stop every test).
 
 import (
 	"bufio"
@@ -152,14 +159,30 @@ func c08SharedKeys() (*c08KeySet, error) {
 			for _, sel := range []string{"sel", "ключ"} {
 				// every key a case may ask for: parallel tests must not find one missing and generate it
 				sd := c08Sender{domains: c08AllDomains, selector: sel}
-				if _, err := c08Modifier(tmp, algo, sd, "relaxed", "relaxed", true, nil, nil); err != nil {
+				mod, err := c08Modifier(tmp, algo, sd, "relaxed", "relaxed", true, nil, nil)
+				if err != nil {
 					c08KeysErr = fmt.Errorf("key generation: %v", err)
 					return
 				}
+				// The published record of a domain is the record file, wherever the modifier put it and
+				// whatever it called it, that carries the key the modifier signs with for that domain
+				// (TestVerifC08Keys is about the names; no test may depend on them to get going).
+				files, err := vc08.ScanKeyDir(ks.keyDir[algo])
+				if err != nil {
+					c08KeysErr = err
+					return
+				}
+				signers := moddkim.C08SignerPublics(mod)
 				for _, dom := range sd.domains {
-					rec, err := os.ReadFile(filepath.Join(ks.keyDir[algo], dom+"_"+sel+".dns"))
-					if err != nil {
-						c08KeysErr = err
+					nd, _ := dns.ForLookup(dom)
+					var rec []byte
+					for _, f := range files {
+						if f.Kind == "r" && vc08.SamePublic(f.Pub, signers[nd]) {
+							rec = f.Content
+						}
+					}
+					if rec == nil {
+						c08KeysErr = fmt.Errorf("no record file with the key that signs for %s (selector %s, %s) in %s", dom, sel, algo, ks.keyDir[algo])
 						return
 					}
 					pub, kind, err := vc08.ParseRecord(string(rec))
@@ -191,6 +214,11 @@ func c08Norm(sel, dom string) string {
 }
 
 func c08Modifier(env *c08Env, algo string, sd c08Sender, hc, bc string, expiry bool, ov, sg []string) (module.Module, error) {
+	return c08ModifierAt(filepath.Join(env.keyDir[algo], "{domain}_{selector}.key"), algo, sd, hc, bc, expiry, ov, sg)
+}
+
+// c08ModifierAt: a modify.dkim instance with the given key_path (as it would be written in the configuration)
+func c08ModifierAt(keyPath, algo string, sd c08Sender, hc, bc string, expiry bool, ov, sg []string) (module.Module, error) {
 	mod, err := moddkim.New("modify.dkim", "c08", nil, nil)
 	if err != nil {
 		return nil, err
@@ -198,7 +226,7 @@ func c08Modifier(env *c08Env, algo string, sd c08Sender, hc, bc string, expiry b
 	nodes := []config.Node{
 		{Name: "domains", Args: sd.domains},
 		{Name: "selector", Args: []string{sd.selector}},
-		{Name: "key_path", Args: []string{filepath.Join(env.keyDir[algo], "{domain}_{selector}.key")}},
+		{Name: "key_path", Args: []string{keyPath}},
 		{Name: "newkey_algo", Args: []string{algo}},
 		{Name: "header_canon", Args: []string{hc}},
 		{Name: "body_canon", Args: []string{bc}},
@@ -862,7 +890,8 @@ type c08Signed struct {
 	tags     map[string]string
 	hkeys    []string
 	digest   []byte
-	maxLine  int // longest line of the signature field
+	maxLine  int      // longest line of the signature field
+	ovCfg    []string // the over-signed names as configured
 }
 
 func (env *c08Env) sign(c *c08Case, op string, quiet bool) *c08Signed {
@@ -912,6 +941,7 @@ func (env *c08Env) sign(c *c08Case, op string, quiet bool) *c08Signed {
 		return nil
 	}
 	hkeys := moddkim.C08FieldsToSign(mod, &before)
+	ovCfg, _ := moddkim.C08Lists(mod)
 	meta := &module.MsgMetadata{ID: "c08", SMTPOpts: smtp.MailOptions{UTF8: sd.utf8}}
 	st, err := mod.(module.Modifier).ModStateForMsg(ctx, meta)
 	if err != nil {
@@ -964,7 +994,7 @@ func (env *c08Env) sign(c *c08Case, op string, quiet bool) *c08Signed {
 			maxLine = len(l)
 		}
 	}
-	return &c08Signed{hdr: hdr, presign: presign, signed: signed, sigField: sigField, tags: tags, hkeys: hkeys, digest: digests[0], maxLine: maxLine}
+	return &c08Signed{hdr: hdr, presign: presign, signed: signed, sigField: sigField, tags: tags, hkeys: hkeys, digest: digests[0], maxLine: maxLine, ovCfg: ovCfg}
 }
 
 // c08SizeClass names a size relative to the limits the generators aim at.
@@ -1162,7 +1192,7 @@ func (env *c08Env) prepare(c *c08Case) *c08Pending {
 		env.sigparse(vh.NewRng(uint64(len(payload))*31+uint64(c.sender)), payload, c.algo)
 	}
 	return &c08Pending{c: c, op: op, sd: sd, tags: tags, payload: payload,
-		tampers: vc08.Tampers(vh.NewRng(uint64(len(payload))*7919+uint64(c.sender)), payload)}
+		tampers: vc08.Tampers(vh.NewRng(uint64(len(payload))*7919+uint64(c.sender)), payload, sg.ovCfg)}
 }
 
 // flush: verification at the next hop for the pending cases (one Lean driver process for all of them)
@@ -1979,4 +2009,499 @@ func c08RawData(port string, srv *vsmtp.Server, wire []byte) ([]byte, error) {
 		return nil, errors.New("no transaction recorded")
 	}
 	return got, nil
+}
+
+// ---------------------------------------------------------------- the key store: restarts, published keys
+
+// "… verifies against the PUBLISHED key": the record maddy writes when it first generates the key of a
+// (domain, selector) is what the administrator puts into DNS; every later instance started on the same
+// directory — same configuration, any newkey_algo — has to sign with that very key.
+//
+// A case is a history of Init()s of modify.dkim on one, initially empty, key directory:
+//
+//	I<a><i>.<j>…  an instance configured with the key_path template and the domains of these indices
+//	L<a><i>       an instance for domain i alone whose key_path is that domain's key path WRITTEN OUT the
+//	              way the documentation defines the placeholders (domain and selector as written in the
+//	              configuration): the key an existing installation has
+//
+// a = r (newkey_algo rsa2048) | e (ed25519).
+type c08KeyStep struct {
+	lit  bool
+	algo string // rsa2048 | ed25519
+	idx  []int
+}
+
+type c08KeyCase struct {
+	tmpl, sel string
+	doms      []string
+	steps     []c08KeyStep
+}
+
+func (k *c08KeyCase) op() string {
+	var ds, st []string
+	for _, d := range k.doms {
+		nd, _ := dns.ForLookup(d)
+		ds = append(ds, vh.HexBytes([]byte(d))+"="+vh.HexBytes([]byte(nd)))
+	}
+	for _, s := range k.steps {
+		var ix []string
+		for _, i := range s.idx {
+			ix = append(ix, strconv.Itoa(i))
+		}
+		t := "I"
+		if s.lit {
+			t = "L"
+		}
+		st = append(st, t+s.algo[:1]+strings.Join(ix, "."))
+	}
+	return fmt.Sprintf("C08 keys %s %s | %s | %s", vh.HexBytes([]byte(k.tmpl)), vh.HexBytes([]byte(k.sel)), strings.Join(ds, " "), strings.Join(st, " "))
+}
+
+func c08ParseKeyCase(op string) (*c08KeyCase, error) {
+	g := strings.Split(op, " | ")
+	if len(g) != 3 {
+		return nil, errors.New("bad keys op")
+	}
+	h := strings.Fields(g[0])
+	if len(h) != 4 || h[0] != "C08" || h[1] != "keys" {
+		return nil, errors.New("bad keys op head")
+	}
+	k := &c08KeyCase{tmpl: string(vh.UnhexBytes(h[2])), sel: string(vh.UnhexBytes(h[3]))}
+	for _, d := range strings.Fields(g[1]) {
+		k.doms = append(k.doms, string(vh.UnhexBytes(strings.SplitN(d, "=", 2)[0])))
+	}
+	for _, s := range strings.Fields(g[2]) {
+		if len(s) < 3 || !strings.Contains("LI", s[:1]) || !strings.Contains("re", s[1:2]) {
+			return nil, errors.New("bad keys step " + s)
+		}
+		st := c08KeyStep{lit: s[0] == 'L', algo: map[byte]string{'r': "rsa2048", 'e': "ed25519"}[s[1]]}
+		for _, i := range strings.Split(s[2:], ".") {
+			n, err := strconv.Atoi(i)
+			if err != nil || n < 0 || n >= len(k.doms) {
+				return nil, errors.New("bad keys step " + s)
+			}
+			st.idx = append(st.idx, n)
+		}
+		k.steps = append(k.steps, st)
+	}
+	return k, nil
+}
+
+func c08GenKeyCase(r *vh.Rng) *c08KeyCase {
+	k := &c08KeyCase{tmpl: vc08.KeyTemplates[r.Intn(len(vc08.KeyTemplates))], sel: vc08.KeySelectors[r.Intn(len(vc08.KeySelectors))]}
+	// 1..3 domains, one spelling each, never two spellings of one domain; IDN more often than not
+	n := 1 + r.Intn(3)
+	used := map[int]bool{}
+	for len(k.doms) < n {
+		g := r.Intn(len(vc08.KeyDomains))
+		if used[g] || (g < 2 && r.Chance(50)) {
+			continue
+		}
+		used[g] = true
+		sp := vc08.KeyDomains[g]
+		j := r.Intn(len(sp))
+		if j > 1 && r.Chance(50) {
+			j = r.Intn(2) // the plain U-label / A-label spellings more often than the odd ones
+		}
+		k.doms = append(k.doms, sp[j])
+	}
+	// RSA keys are expensive to generate: at most one step of a case asks for them
+	rsaLeft := 0
+	if r.Chance(35) {
+		rsaLeft = 1
+	}
+	algo := func() string {
+		if rsaLeft > 0 && r.Chance(50) {
+			rsaLeft--
+			return "rsa2048"
+		}
+		return "ed25519"
+	}
+	all := func() []int {
+		ix := make([]int, n)
+		for i := range ix {
+			ix[i] = i
+		}
+		for i := n - 1; i > 0; i-- { // the order of the directive is free
+			if r.Chance(30) {
+				j := r.Intn(i + 1)
+				ix[i], ix[j] = ix[j], ix[i]
+			}
+		}
+		return ix
+	}
+	switch r.Intn(5) {
+	case 0, 1:
+		// an existing installation (keys under their documented names), then the server is started
+		for i := 0; i < n; i++ {
+			if n == 1 || !r.Chance(25) {
+				k.steps = append(k.steps, c08KeyStep{lit: true, algo: algo(), idx: []int{i}})
+			}
+		}
+		k.steps = append(k.steps, c08KeyStep{algo: algo(), idx: all()})
+	case 2, 3:
+		// first start generates everything, then restarts
+		k.steps = append(k.steps, c08KeyStep{algo: algo(), idx: all()})
+	default:
+		// domains are added one by one
+		for i := 0; i < n; i++ {
+			ix := all()[:0]
+			for j := 0; j <= i; j++ {
+				ix = append(ix, j)
+			}
+			k.steps = append(k.steps, c08KeyStep{algo: algo(), idx: ix})
+		}
+	}
+	for i := 0; i < 1+r.Intn(2); i++ {
+		a := algo()
+		if r.Chance(40) && a == "ed25519" {
+			a = "rsa2048" // newkey_algo changed in the configuration; nothing is generated, so it costs nothing
+		}
+		k.steps = append(k.steps, c08KeyStep{algo: a, idx: all()})
+	}
+	return k
+}
+
+// c08PubID: a map key for a public key (*rsa.PublicKey prints as &{N E}, ed25519.PublicKey as its octets)
+func c08PubID(p crypto.PublicKey) string { return fmt.Sprintf("%T:%v", p, p) }
+
+// c08KeyMessage: a small message for the given sender, fields in generated spelling / folding
+func c08KeyMessage(r *vh.Rng, eight bool) ([][]byte, []byte) {
+	names := []string{"From", "To", "Subject", "Date", "Message-Id"}
+	for i := 0; i < r.Intn(4); i++ {
+		names = append(names, r.Pick("Received", "Cc", "X-Mailer", "List-Id", "Reply-To", "MIME-Version"))
+	}
+	for i := len(names) - 1; i > 0; i-- {
+		j := r.Intn(i + 1)
+		names[i], names[j] = names[j], names[i]
+	}
+	var fs [][]byte
+	for _, n := range names {
+		fs = append(fs, vc08.Field(r, n, eight))
+	}
+	return fs, vc08.Body(r, eight)
+}
+
+func (env *c08Env) runKeys(k *c08KeyCase) {
+	out := env.out
+	op := k.op()
+	dir, err := os.MkdirTemp("", "verif-c08-kd-")
+	if err != nil {
+		env.t.Fatal(err)
+	}
+	defer os.RemoveAll(dir)
+	var seed uint64 = 1469598103934665603
+	for i := 0; i < len(op); i++ {
+		seed = (seed ^ uint64(op[i])) * 1099511628211
+	}
+	r := vh.NewRng(seed)
+
+	out.Stat("keys.template." + strings.ReplaceAll(k.tmpl, " ", "_"))
+	out.Stat(fmt.Sprintf("keys.domains.%d", len(k.doms)))
+	out.Stat(fmt.Sprintf("keys.steps.%d", len(k.steps)))
+	if isASCII(k.sel) {
+		out.Stat("keys.selector.ascii")
+	} else {
+		out.Stat("keys.selector.u-label")
+	}
+
+	norm := make([]string, len(k.doms))
+	for i, d := range k.doms {
+		norm[i], _ = dns.ForLookup(d)
+	}
+	firstPub := map[string]crypto.PublicKey{} // normalised domain -> the key the first instance configured with it signed with
+	firstRec := map[string]string{}           // c08Norm(selector, domain) -> the record published for that key
+	createdIn := map[string]string{}          // public key -> file it was first seen in as a private key
+	before, _ := vc08.ScanKeyDir(dir)
+	var obs []string
+
+	for si, st := range k.steps {
+		var doms []string
+		for _, i := range st.idx {
+			doms = append(doms, k.doms[i])
+		}
+		tmpl := k.tmpl
+		kind := "template"
+		if st.lit {
+			tmpl, kind = vc08.ExpandKeyPath(k.tmpl, doms[0], k.sel), "written-out"
+		}
+		out.Stat("keys.step." + kind + "." + st.algo)
+		mod, ierr := c08ModifierAt(filepath.Join(dir, filepath.FromSlash(tmpl)), st.algo, c08Sender{domains: doms, selector: k.sel}, r.Pick("relaxed", "simple"), r.Pick("relaxed", "simple"), true, nil, nil)
+		after, err := vc08.ScanKeyDir(dir)
+		if err != nil {
+			env.t.Fatal(err)
+		}
+		var created, changed []string
+		newKeys := 0
+		for rel, f := range after {
+			old, ok := before[rel]
+			switch {
+			case !ok:
+				created = append(created, f.Kind+":"+vh.HexBytes([]byte(rel)))
+				if f.Kind == "k" {
+					newKeys++
+					if _, seen := createdIn[c08PubID(f.Pub)]; !seen {
+						createdIn[c08PubID(f.Pub)] = rel
+					}
+				}
+			case !bytes.Equal(old.Content, f.Content):
+				changed = append(changed, rel)
+			}
+		}
+		for rel := range before {
+			if _, ok := after[rel]; !ok {
+				changed = append(changed, rel+" (removed)")
+			}
+		}
+		vcSort(created)
+		vcSort(changed)
+		where := fmt.Sprintf("step %d (%s, newkey_algo %s, domains %q, selector %q, key_path %q)", si+1, kind, st.algo, doms, k.sel, tmpl)
+		if ierr != nil {
+			// a server that does not come up signs nothing; the unchanged code never fails here
+			out.Violation("C08/key-init-fails", op, where+": "+ierr.Error())
+			obs = append(obs, "err:"+c08InitErrClass(ierr)+" new="+c08JoinOr(created, "-"))
+			break
+		}
+		if len(changed) > 0 {
+			out.Violation("C08/key-file-modified", op, where+": files of the key directory rewritten by Init: "+strings.Join(changed, ", "))
+		}
+		// Init never creates a second key for a (domain, selector) that has one
+		fresh := 0
+		for _, i := range st.idx {
+			if firstPub[norm[i]] == nil {
+				fresh++
+			}
+		}
+		if newKeys > fresh {
+			out.Violation("C08/key-regenerated", op, fmt.Sprintf("%s: %d new private key file(s) for %d domain(s) that had no key yet; created: %s", where, newKeys, fresh, c08KeyNames(created)))
+		}
+		if newKeys > 0 {
+			out.Stat("keys.step.generates")
+		} else {
+			out.Stat("keys.step.loads-only")
+		}
+		signers := moddkim.C08SignerPublics(mod)
+		var use []string
+		for _, i := range st.idx {
+			d, nd := k.doms[i], norm[i]
+			pub := signers[nd]
+			if pub == nil {
+				out.Violation("C08/key-no-signer", op, where+": no key for configured domain "+d)
+				use = append(use, "none")
+				continue
+			}
+			f, ok := createdIn[c08PubID(pub)]
+			algoName := map[bool]string{true: "rsa", false: "ed25519"}[strings.Contains(fmt.Sprintf("%T", pub), "rsa")]
+			if ok {
+				use = append(use, vh.HexBytes([]byte(f))+":"+algoName)
+			} else {
+				use = append(use, "?:"+algoName)
+			}
+			if first := firstPub[nd]; first != nil {
+				if !vc08.SamePublic(first, pub) {
+					out.Violation("C08/key-replaced-on-restart", op, fmt.Sprintf("%s: the instance signs for %s with a key (from %q) other than the one published when the domain was first configured; created in this step: %s",
+						where, d, f, c08KeyNames(created)))
+				}
+			} else {
+				firstPub[nd] = pub
+				rec := ""
+				for _, kf := range after {
+					if kf.Kind == "r" && vc08.SamePublic(kf.Pub, pub) {
+						rec = string(kf.Content)
+					}
+				}
+				if rec == "" {
+					out.Violation("C08/key-record-not-written", op, where+": no record file carries the key generated for "+d)
+				}
+				firstRec[c08Norm(k.sel, d)] = rec
+			}
+		}
+		obs = append(obs, "ok new="+c08JoinOr(created, "-")+" use="+c08JoinOr(use, "-"))
+
+		// the property itself: what this instance signs verifies against the record published FIRST
+		for _, i := range st.idx {
+			env.keySignVerify(r, op, where, mod, k, k.doms[i], firstRec)
+		}
+		before = after
+	}
+	out.Corr(op, strings.Join(obs, " ; "))
+}
+
+func vcSort(s []string) {
+	for i := 1; i < len(s); i++ {
+		for j := i; j > 0 && s[j] < s[j-1]; j-- {
+			s[j], s[j-1] = s[j-1], s[j]
+		}
+	}
+}
+
+func c08JoinOr(l []string, empty string) string {
+	if len(l) == 0 {
+		return empty
+	}
+	return strings.Join(l, ",")
+}
+
+func c08KeyNames(created []string) string {
+	var n []string
+	for _, c := range created {
+		n = append(n, c[:2]+string(vh.UnhexBytes(c[2:])))
+	}
+	return "[" + strings.Join(n, " ") + "]"
+}
+
+func c08InitErrClass(err error) string {
+	if strings.Contains(err.Error(), "invalid PEM block") {
+		return "pem"
+	}
+	return "other"
+}
+
+// keySignVerify signs one or two messages sent from the domain (spelled as an EAI and as a non-EAI
+// sender would) and verifies them with go-msgauth and check.dkim against the records published first.
+func (env *c08Env) keySignVerify(r *vh.Rng, op, where string, mod module.Module, k *c08KeyCase, dom string, firstRec map[string]string) {
+	out := env.out
+	nd, _ := dns.ForLookup(dom)
+	a, aerr := idna.ToASCII(nd)
+	type sender struct {
+		from string
+		utf8 bool
+	}
+	var cands []sender
+	if isASCII(dom) {
+		cands = append(cands, sender{"user@" + dom, false}, sender{"user@" + dom, true})
+	}
+	if !isASCII(nd) {
+		cands = append(cands, sender{"юзер@" + nd, true}, sender{"user@" + nd, true})
+		if !isASCII(dom) {
+			cands = append(cands, sender{"user@" + dom, true})
+		}
+	}
+	if aerr == nil {
+		cands = append(cands, sender{"user@" + a, false}, sender{"USER@" + strings.ToUpper(a), false})
+	}
+	lookup := func(name string) ([]string, error) {
+		i := strings.Index(strings.ToLower(name), "._domainkey.")
+		if i < 0 {
+			return nil, errors.New("c08: unexpected TXT query " + name)
+		}
+		rec, ok := firstRec[c08Norm(name[:i], name[i+len("._domainkey."):])]
+		if !ok || rec == "" {
+			return nil, &net.DNSError{Err: "no such host", Name: name, IsNotFound: true}
+		}
+		return []string{rec}, nil
+	}
+	n := 1 + r.Intn(2)
+	for j := 0; j < n; j++ {
+		sd := cands[r.Intn(len(cands))]
+		eai := "non-eai"
+		if sd.utf8 {
+			eai = "eai"
+		}
+		fields, body := c08KeyMessage(r, sd.utf8)
+		hdr, err := textproto.ReadHeader(bufio.NewReader(bytes.NewReader(vc08.Join(fields, nil))))
+		if err != nil {
+			out.Stat("keys.sign.gen-refused")
+			continue
+		}
+		ctx := context.Background()
+		st, err := mod.(module.Modifier).ModStateForMsg(ctx, &module.MsgMetadata{ID: "c08k", SMTPOpts: smtp.MailOptions{UTF8: sd.utf8}})
+		if err != nil {
+			env.t.Fatal(err)
+		}
+		st.RewriteSender(ctx, sd.from)
+		nBefore := hdr.Len()
+		if err := st.RewriteBody(ctx, &hdr, buffer.MemoryBuffer{Slice: body}); err != nil {
+			out.Stat("keys.sign.error:" + c08ErrClass(err))
+			continue
+		}
+		detail := fmt.Sprintf("%s: message from <%s> (%s)", where, sd.from, eai)
+		if hdr.Len() != nBefore+1 {
+			out.Violation("C08/not-signed", op, detail+": the modifier returned no error and added no signature")
+			continue
+		}
+		var msg bytes.Buffer
+		textproto.WriteHeader(&msg, hdr)
+		msg.Write(body)
+		out.Stat("keys.signed." + eai)
+		vs, err := msgdkim.VerifyWithOptions(bytes.NewReader(msg.Bytes()), &msgdkim.VerifyOptions{LookupTXT: lookup})
+		switch {
+		case err != nil:
+			out.Violation("C08/verify-fails-published-key", op, detail+": go-msgauth: "+err.Error())
+		case len(vs) != 1:
+			out.Violation("C08/verify-fails-published-key", op, fmt.Sprintf("%s: go-msgauth sees %d signatures", detail, len(vs)))
+		case vs[0].Err != nil:
+			out.Violation("C08/verify-fails-published-key", op, fmt.Sprintf("%s: go-msgauth with the record published when the key was first generated (d=%s s=%s): %v", detail, vs[0].Domain, c08SigTag(hdr, "s"), vs[0].Err))
+		default:
+			out.Stat("keys.verify.ok")
+		}
+		chk, err := checkdkim.C08NewCheck(c08Resolver{&mockdns.Resolver{}, lookup})
+		if err != nil {
+			env.t.Fatal(err)
+		}
+		cst, err := chk.CheckStateForMsg(ctx, &module.MsgMetadata{ID: "c08kv"})
+		if err != nil {
+			env.t.Fatal(err)
+		}
+		res := cst.CheckBody(ctx, hdr, buffer.MemoryBuffer{Slice: body})
+		pass := false
+		var vals []string
+		for _, ar := range res.AuthResult {
+			if dr, ok := ar.(*authres.DKIMResult); ok {
+				pass = pass || dr.Value == authres.ResultPass
+				vals = append(vals, string(dr.Value)+"("+dr.Reason+")")
+			}
+		}
+		if !pass {
+			out.Violation("C08/maddy-check-fails-published-key", op, detail+": check.dkim: "+strings.Join(vals, ","))
+		}
+	}
+}
+
+func c08SigTag(h textproto.Header, tag string) string {
+	for f := h.Fields(); f.Next(); {
+		if strings.EqualFold(f.Key(), "DKIM-Signature") {
+			raw, _ := f.Raw()
+			return vc08.Tags(raw)[tag]
+		}
+	}
+	return ""
+}
+
+func TestVerifC08Keys(t *testing.T) {
+	t.Parallel()
+	out := vh.Open("c08_keys")
+	defer out.Close()
+	env := c08NewEnv(t, out, false)
+	if c08Replay(t, "C08 keys ", func(op string) {
+		k, err := c08ParseKeyCase(op)
+		if err != nil {
+			t.Fatal(err)
+		}
+		env.runKeys(k)
+	}) {
+		return
+	}
+	r := vh.NewRng(vh.Seed() + 806)
+	n := vh.N(600)/15 + 2
+	// every run: an IDN domain in U-labels and in A-labels, an upper-case ASCII domain and an IDN selector with
+	// the default template and a custom one, as an existing installation that is started again
+	for _, fx := range []struct {
+		tmpl, sel string
+		doms      []string
+	}{
+		{"{domain}_{selector}.key", "sel", []string{"example.org", "пример.example"}},
+		{"{domain}_{selector}.key", "ключ", []string{"xn--bcher-kva.example", "EXAMPLE.ORG"}},
+		{"{selector}/{domain}.pem", "S2024", []string{"bücher.example", "Mail.Example.COM"}},
+	} {
+		k := &c08KeyCase{tmpl: fx.tmpl, sel: fx.sel, doms: fx.doms}
+		a := r.Pick("rsa2048", "ed25519")
+		b := map[string]string{"rsa2048": "ed25519", "ed25519": "rsa2048"}[a]
+		k.steps = []c08KeyStep{{lit: true, algo: a, idx: []int{0}}, {lit: true, algo: "ed25519", idx: []int{1}},
+			{algo: b, idx: []int{0, 1}}, {algo: "ed25519", idx: []int{1, 0}}}
+		env.runKeys(k)
+	}
+	for i := 0; i < n; i++ {
+		env.runKeys(c08GenKeyCase(r))
+	}
 }
